@@ -219,6 +219,10 @@ impl TreeSpec {
 /// `CachedSource::stream_chunks` holds its shard lock).
 /// `UserSrc::id` bit that makes the source renumber its sources / names.
 pub const PERMUTE_BIT: u32 = 0x4000;
+/// `UserSrc::id` bit that makes `size()` an estimate (17 bytes too large): a
+/// safe `impl Source` may answer anything there, and no unsafe code in the
+/// library may rely on it.
+pub const ESTIMATE_BIT: u32 = 0x2000;
 
 #[derive(Clone, Debug)]
 pub struct UserSrc {
@@ -237,7 +241,7 @@ impl Source for UserSrc {
     self.inner.buffer()
   }
   fn size(&self) -> usize {
-    self.inner.size()
+    self.inner.size() + if self.id & ESTIMATE_BIT != 0 { 17 } else { 0 }
   }
   fn map(&self, options: &MapOptions) -> Option<SourceMap> {
     user_point("user.map.enter");
@@ -654,6 +658,11 @@ pub struct WriterPlan {
   /// default implementation only the first non-empty buffer is ever looked at)
   #[serde(default)]
   pub vectored: bool,
+  /// the sink re-enters the library on the same thread: its first write call
+  /// renders a small banner (a ReplaceSource, a ConcatSource and a
+  /// CachedSource, each through `to_writer`) before accepting anything
+  #[serde(default)]
+  pub reenter: bool,
 }
 
 #[derive(Clone, Debug, Serialize, Deserialize, PartialEq, Eq, Hash, Default)]
